@@ -12,59 +12,21 @@ Lemma tbind_ok {A B} (r : tres A) (f : A -> tres B) b :
   tbind r f = TOk b -> exists a, r = TOk a /\ f a = TOk b.
 Proof. destruct r as [a|e]; simpl; [intros H; exists a; auto | discriminate]. Qed.
 
-(* the link between the two transcriptions: the metadata's limit is 0 only if the query under
-   construction has no LIMIT *)
-Lemma limit_link sch a : forall cc c,
-  shape_ok a = true -> cache_of_ast sch a = TOk cc -> compile a = Some c ->
-  limit cc = 0%Z -> q_limit (c_q c) = None.
-Proof.
-  induction a as [t cs|a IH us|a IH m|a IH defs|a IH ps|a IH os|a IH n k|a IH us add|a IH|a IH defs|a IH m|a IH|l IHl r IHr on how|l IHl r IHr dis];
-    intros cc c Hs Hc Hq Hl; cbn [shape_ok] in Hs; cbn [cache_of_ast] in Hc; cbn [compile] in Hq;
-    try discriminate.
-  - inversion Hq; subst. reflexivity.
-  - apply andb_prop in Hs as [Hs _].
-    apply tbind_ok in Hc as (c0 & Hc0 & Hc). inversion Hc; subst cc.
-    destruct (compile a) as [c1|] eqn:E; [|discriminate]. inversion Hq; subst c.
-    cbn. apply (IH c0 c1 Hs Hc0 eq_refl). exact Hl.
-  - apply tbind_ok in Hc as (c0 & Hc0 & Hc). inversion Hc; subst cc.
-    destruct (compile a) as [c1|] eqn:E; [|discriminate]. inversion Hq; subst c.
-    cbn. apply (IH c0 c1 Hs Hc0 eq_refl). exact Hl.
-  - apply andb_prop in Hs as [Hs _].
-    apply tbind_ok in Hc as (c0 & Hc0 & Hc). unfold upd_mutate in Hc.
-    apply tbind_ok in Hc as (nc & _ & Hc). inversion Hc; subst cc.
-    destruct (compile a) as [c1|] eqn:E; [|discriminate]. inversion Hq; subst c.
-    cbn. apply (IH c0 c1 Hs Hc0 eq_refl). exact Hl.
-  - apply andb_prop in Hs as [Hs _]. apply andb_prop in Hs as [Hs _].
-    apply tbind_ok in Hc as (c0 & Hc0 & Hc). inversion Hc; subst cc.
-    destruct (compile a) as [c1|] eqn:E; [|discriminate]. inversion Hq; subst c.
-    cbn. destruct (negb _ || _); cbn; apply (IH c0 c1 Hs Hc0 eq_refl); exact Hl.
-  - apply andb_prop in Hs as [Hs _]. apply andb_prop in Hs as [Hs _]. apply andb_prop in Hs as [Hs _].
-    destruct (compile a) as [c1|] eqn:E; [|discriminate]. inversion Hq; subst c.
-    cbn. apply (IH cc c1 Hs Hc eq_refl). exact Hl.
-  - (* slice_head: the metadata's limit is n > 0 *)
-    apply andb_prop in Hs as [Hs _]. apply andb_prop in Hs as [_ Hn].
-    apply tbind_ok in Hc as (c0 & Hc0 & Hc). inversion Hc; subst cc. cbn in Hl.
-    apply Z.ltb_lt in Hn. lia.
-  - apply andb_prop in Hs as [Hs _].
-    apply tbind_ok in Hc as (c0 & Hc0 & Hc). inversion Hc; subst cc.
-    destruct (compile a) as [c1|] eqn:E; [|discriminate]. inversion Hq; subst c.
-    cbn. apply (IH c0 c1 Hs Hc0 eq_refl). exact Hl.
-  - apply tbind_ok in Hc as (c0 & Hc0 & Hc). inversion Hc; subst cc.
-    destruct (compile a) as [c1|] eqn:E; [|discriminate]. inversion Hq; subst c.
-    cbn. apply (IH c0 c1 Hs Hc0 eq_refl). exact Hl.
-  - apply andb_prop in Hs as [Hs _]. apply andb_prop in Hs as [Hs _].
-    apply tbind_ok in Hc as (c0 & Hc0 & Hc). unfold upd_summarize in Hc.
-    apply tbind_ok in Hc as (nc & _ & Hc). inversion Hc; subst cc.
-    destruct (compile a) as [c1|] eqn:E; [|discriminate]. inversion Hq; subst c.
-    cbn. apply (IH c0 c1 Hs Hc0 eq_refl). exact Hl.
-  - destruct m; [discriminate|].
-    apply tbind_ok in Hc as (c0 & Hc0 & Hc). inversion Hc; subst cc.
-    apply (IH c0 c Hs Hc0 Hq). exact Hl.
-Qed.
+Lemma shape_ok_marker_alias c0 m :
+  shape_ok (SubqueryMarker (Alias c0 (Some m))) =
+  shape_ok c0 && match compile c0 with
+                 | Some cc =>
+                     let U := ast_uids c0 ++ c_scope cc ++ map fst (c_labels cc) in
+                     forallb (fun a => forallb (fun b => implb (N.eqb (remap_uid m a) (remap_uid m b)) (N.eqb a b)) U) U
+                 | None => false
+                 end.
+Proof. reflexivity. Qed.
+Lemma shape_ok_marker_generic a : (forall c0 m, a <> Alias c0 (Some m)) -> shape_ok (SubqueryMarker a) = shape_ok a.
+Proof. intros H. destruct a as [| | | | | | | | | |a0 [m|]| | |]; try reflexivity. exfalso. apply (H a0 m). reflexivity. Qed.
 
-Lemma passes_after_slice sch c v :
-  passes sch c v false = true ->
-  match v with Filter _ _ | Summarize _ _ | Arrange _ _ => True | _ => False end ->
+Lemma passes_limit sch c v r :
+  passes sch c v r = true ->
+  match v with Filter _ _ | Summarize _ _ | Arrange _ _ | Join _ _ _ _ | Union _ _ _ | GroupBy _ _ _ => True | _ => False end ->
   exists cc, cache_of_ast sch c = TOk cc /\ limit cc = 0%Z.
 Proof.
   unfold passes. destruct (cache_of_ast sch c) as [cc|e]; [|discriminate].
@@ -74,42 +36,173 @@ Proof.
     (destruct (Z.eqb (limit cc) 0) eqn:E; [apply Z.eqb_eq; exact E | cbn in H; discriminate]).
 Qed.
 
-Theorem accepted_flat_proof sch a :
+Ltac split_andb :=
+  repeat match goal with H : _ && _ = true |- _ => apply andb_prop in H; destruct H end.
+
+(* the link between the two transcriptions: the metadata's limit is 0 only if the query under construction has no
+   LIMIT (for an accepted pipeline: a join keeps the left operand's LIMIT state, and the join is only accepted
+   when that operand has none) *)
+Lemma limit_link sch : forall a cc c,
+  shape_ok a = true -> accepted sch a = true -> cache_of_ast sch a = TOk cc -> compile a = Some c ->
+  limit cc = 0%Z -> q_limit (c_q c) = None.
+Proof.
+  intros a. remember (asize a) as sz eqn:Hsz. revert a Hsz. induction sz as [sz IHsz] using lt_wf_ind. intros a Hsz.
+  assert (IH0 : forall b, (asize b < asize a)%nat -> forall cc c,
+            shape_ok b = true -> accepted sch b = true -> cache_of_ast sch b = TOk cc -> compile b = Some c ->
+            limit cc = 0%Z -> q_limit (c_q c) = None).
+  { intros b Hb. apply (IHsz (asize b)); [lia|reflexivity]. }
+  clear IHsz Hsz.
+  destruct a as [t cs|a us|a m|a defs|a ps|a os|a n k|a us add|a|a defs|a m|a|l r on how|l r dis];
+    try (pose proof (IH0 a ltac:(cbn [asize]; lia)) as IH);
+    intros cc c Hs Ha Hc Hq Hl;
+    try (cbn [accepted] in Ha; apply andb_prop in Ha; destruct Ha as [Ha Hp]).
+  - cbn [compile] in Hq. inversion Hq; subst. reflexivity.
+  - cbn [shape_ok] in Hs. cbn [cache_of_ast] in Hc. cbn [compile] in Hq. apply andb_prop in Hs as [Hs _].
+    apply tbind_ok in Hc as (c0 & Hc0 & Hc). inversion Hc; subst cc.
+    destruct (compile a) as [c1|] eqn:E; [|discriminate]. inversion Hq; subst c.
+    cbn. apply (IH c0 c1 Hs Ha Hc0 eq_refl). exact Hl.
+  - cbn [shape_ok] in Hs. cbn [cache_of_ast] in Hc. cbn [compile] in Hq.
+    apply tbind_ok in Hc as (c0 & Hc0 & Hc). inversion Hc; subst cc.
+    destruct (compile a) as [c1|] eqn:E; [|discriminate]. inversion Hq; subst c.
+    cbn. apply (IH c0 c1 Hs Ha Hc0 eq_refl). exact Hl.
+  - cbn [shape_ok] in Hs. cbn [cache_of_ast] in Hc. cbn [compile] in Hq. apply andb_prop in Hs as [Hs _].
+    apply tbind_ok in Hc as (c0 & Hc0 & Hc). unfold upd_mutate in Hc.
+    apply tbind_ok in Hc as (nc & _ & Hc). inversion Hc; subst cc.
+    destruct (compile a) as [c1|] eqn:E; [|discriminate]. inversion Hq; subst c.
+    cbn. apply (IH c0 c1 Hs Ha Hc0 eq_refl). exact Hl.
+  - cbn [shape_ok] in Hs. cbn [cache_of_ast] in Hc. cbn [compile] in Hq.
+    apply andb_prop in Hs as [Hs _]. apply andb_prop in Hs as [Hs _].
+    apply tbind_ok in Hc as (c0 & Hc0 & Hc). inversion Hc; subst cc.
+    destruct (compile a) as [c1|] eqn:E; [|discriminate]. inversion Hq; subst c.
+    cbn. destruct (negb _ || _); cbn; apply (IH c0 c1 Hs Ha Hc0 eq_refl); exact Hl.
+  - cbn [shape_ok] in Hs. cbn [cache_of_ast] in Hc. cbn [compile] in Hq.
+    apply andb_prop in Hs as [Hs _]. apply andb_prop in Hs as [Hs _]. apply andb_prop in Hs as [Hs _].
+    destruct (compile a) as [c1|] eqn:E; [|discriminate]. inversion Hq; subst c.
+    cbn. apply (IH cc c1 Hs Ha Hc eq_refl). exact Hl.
+  - (* slice_head: the metadata's limit is n > 0 *)
+    cbn [shape_ok] in Hs. cbn [cache_of_ast] in Hc.
+    apply andb_prop in Hs as [Hs _]. apply andb_prop in Hs as [_ Hn].
+    apply tbind_ok in Hc as (c0 & Hc0 & Hc). inversion Hc; subst cc. cbn in Hl.
+    apply Z.ltb_lt in Hn. lia.
+  - cbn [shape_ok] in Hs. cbn [cache_of_ast] in Hc. cbn [compile] in Hq. apply andb_prop in Hs as [Hs _].
+    apply tbind_ok in Hc as (c0 & Hc0 & Hc). inversion Hc; subst cc.
+    destruct (compile a) as [c1|] eqn:E; [|discriminate]. inversion Hq; subst c.
+    cbn. apply (IH c0 c1 Hs Ha Hc0 eq_refl). exact Hl.
+  - cbn [shape_ok] in Hs. cbn [cache_of_ast] in Hc. cbn [compile] in Hq.
+    apply tbind_ok in Hc as (c0 & Hc0 & Hc). inversion Hc; subst cc.
+    destruct (compile a) as [c1|] eqn:E; [|discriminate]. inversion Hq; subst c.
+    cbn. apply (IH c0 c1 Hs Ha Hc0 eq_refl). exact Hl.
+  - cbn [shape_ok] in Hs. cbn [cache_of_ast] in Hc. cbn [compile] in Hq.
+    apply andb_prop in Hs as [Hs _]. apply andb_prop in Hs as [Hs _].
+    apply tbind_ok in Hc as (c0 & Hc0 & Hc). unfold upd_summarize in Hc.
+    apply tbind_ok in Hc as (nc & _ & Hc). inversion Hc; subst cc.
+    destruct (compile a) as [c1|] eqn:E; [|discriminate]. inversion Hq; subst c.
+    cbn. apply (IH c0 c1 Hs Ha Hc0 eq_refl). exact Hl.
+  - (* alias *)
+    cbn [cache_of_ast] in Hc. apply tbind_ok in Hc as (c0 & Hc0 & Hc). inversion Hc; subst cc.
+    destruct m as [m|].
+    + cbn [shape_ok] in Hs. apply andb_prop in Hs as [Hs _]. cbn [compile] in Hq.
+      destruct (compile a) as [c1|] eqn:E; [|discriminate]. inversion Hq; subst c. cbn.
+      apply (IH c0 c1 Hs Ha Hc0 eq_refl). exact Hl.
+    + cbn [shape_ok] in Hs. cbn [compile] in Hq. apply (IH c0 c Hs Ha Hc0 Hq). exact Hl.
+  - (* subquery marker: a fresh outer query *)
+    destruct (alias_some_dec a) as [[c0 [m ->]]|Hna].
+    + rewrite compile_marker_alias in Hq. destruct (compile c0); [|discriminate]. inversion Hq; subst. reflexivity.
+    + rewrite (compile_marker_generic a Hna) in Hq. destruct (compile a); [|discriminate]. inversion Hq; subst. reflexivity.
+  - (* join: the left operand's LIMIT state, which the catalogue checked *)
+    cbn [accepted] in Ha. split_andb.
+    match goal with H : passes sch l _ false = true |- _ => apply (passes_limit sch l _ false) in H as (cl0 & Hcl & Hll); [|exact I] end.
+    assert (Hsl : shape_ok l = true).
+    { destruct how; cbn [shape_ok] in Hs; split_andb; assumption. }
+    assert (Hql : forall cl, compile l = Some cl -> q_limit (c_q cl) = None).
+    { intros cl El. apply (IH0 l ltac:(cbn [asize]; lia) cl0 cl Hsl); assumption. }
+    cbn [compile] in Hq. destruct how.
+    + destruct (compile l) as [cl|] eqn:El; [|discriminate]. destruct (compile r) as [cr|]; [|discriminate].
+      inversion Hq; subst. cbn. apply Hql. reflexivity.
+    + destruct (compile l) as [cl|] eqn:El; [|discriminate]. destruct (compile r) as [cr|]; [|discriminate].
+      inversion Hq; subst. cbn. apply Hql. reflexivity.
+    + destruct (compile l) as [cl|] eqn:El; [|discriminate]. destruct (compile r) as [cr|]; [|discriminate].
+      destruct (q_where (c_q cl)); [|discriminate]. destruct (q_where (c_q cr)); [|discriminate].
+      inversion Hq; subst. cbn. apply Hql. reflexivity.
+  - (* union: a fresh query *)
+    cbn [compile] in Hq. destruct (compile l) as [cl|]; [|discriminate]. destruct (compile r) as [cr|]; [|discriminate].
+    destruct (union_right_select cl cr); [|discriminate]. inversion Hq; subst. reflexivity.
+Qed.
+
+Ltac rebuild_andb := repeat (apply andb_true_intro; split); try assumption; try reflexivity.
+
+Theorem accepted_flat_proof sch : forall a,
   shape_ok a = true -> accepted sch a = true -> flat_ok a = true.
 Proof.
-  induction a as [t cs|a IH us|a IH m|a IH defs|a IH ps|a IH os|a IH n k|a IH us add|a IH|a IH defs|a IH m|a IH|l IHl r IHr on how|l IHl r IHr dis];
-    intros Hs Ha; cbn [shape_ok] in Hs; cbn [accepted] in Ha; cbn [flat_ok]; try discriminate.
+  intros a. remember (asize a) as sz eqn:Hsz. revert a Hsz. induction sz as [sz IHsz] using lt_wf_ind. intros a Hsz.
+  assert (IH0 : forall b, (asize b < asize a)%nat -> shape_ok b = true -> accepted sch b = true -> flat_ok b = true).
+  { intros b Hb. apply (IHsz (asize b)); [lia|reflexivity]. }
+  clear IHsz Hsz.
+  (* no LIMIT in the query of a child whose metadata the catalogue saw with limit 0 *)
+  assert (NL : forall b v rr cb, (asize b < asize a)%nat -> shape_ok b = true -> accepted sch b = true ->
+                 passes sch b v rr = true ->
+                 match v with Filter _ _ | Summarize _ _ | Arrange _ _ | Join _ _ _ _ | Union _ _ _ | GroupBy _ _ _ => True | _ => False end ->
+                 compile b = Some cb -> no_limit (c_q cb) = true).
+  { intros b v rr cb Hb Hsb Hab Hp Hv Eb. apply (passes_limit sch b v rr) in Hp as (cc & Hc & Hl); [|exact Hv].
+    unfold no_limit. rewrite (limit_link sch b cc cb Hsb Hab Hc Eb Hl). reflexivity. }
+  destruct a as [t cs|a us|a m|a defs|a ps|a os|a n k|a us add|a|a defs|a m|a|l r on how|l r dis];
+    try (pose proof (IH0 a ltac:(cbn [asize]; lia)) as IH);
+    intros Hs Ha;
+    try (cbn [accepted] in Ha; apply andb_prop in Ha; destruct Ha as [Ha Hp]).
   - exact Hs.
-  - apply andb_prop in Hs as [Hs H1]. apply andb_prop in Ha as [Ha _]. rewrite (IH Hs Ha). exact H1.
-  - apply andb_prop in Ha as [Ha _]. exact (IH Hs Ha).
-  - apply andb_prop in Hs as [Hs H2]. apply andb_prop in Ha as [Ha _].
-    rewrite (IH Hs Ha). exact H2.
+  - cbn [shape_ok] in Hs. cbn [flat_ok]. apply andb_prop in Hs as [Hs H1]. rewrite (IH Hs Ha). exact H1.
+  - cbn [shape_ok] in Hs. cbn [flat_ok]. exact (IH Hs Ha).
+  - cbn [shape_ok] in Hs. cbn [flat_ok]. apply andb_prop in Hs as [Hs H2]. rewrite (IH Hs Ha). exact H2.
   - (* filter *)
-    apply andb_prop in Hs as [Hs H2]. apply andb_prop in Hs as [Hs H1]. apply andb_prop in Ha as [Ha Hp].
-    rewrite (IH Hs Ha), H1. cbn.
+    cbn [shape_ok] in Hs. cbn [flat_ok].
+    apply andb_prop in Hs as [Hs H2]. apply andb_prop in Hs as [Hs H1]. rewrite (IH Hs Ha), H1. cbn.
     destruct (compile a) as [c1|] eqn:E; [|discriminate].
-    apply (passes_after_slice sch a (Filter a ps)) in Hp as (cc & Hc & Hl); [|exact I].
-    unfold no_limit. rewrite (limit_link sch a cc c1 Hs Hc E Hl). exact H2.
+    rewrite (NL a (Filter a ps) false c1 ltac:(cbn [asize]; lia) Hs Ha Hp I E). exact H2.
   - (* arrange *)
+    cbn [shape_ok] in Hs. cbn [flat_ok].
     apply andb_prop in Hs as [Hs H2]. apply andb_prop in Hs as [Hs H0]. apply andb_prop in Hs as [Hs H1].
-    apply andb_prop in Ha as [Ha Hp].
     rewrite (IH Hs Ha), H1, H0. cbn.
     destruct (compile a) as [c1|] eqn:E; [|discriminate].
-    apply (passes_after_slice sch a (Arrange a os)) in Hp as (cc & Hc & Hl); [|exact I].
-    unfold no_limit. rewrite (limit_link sch a cc c1 Hs Hc E Hl). exact H2.
+    rewrite (NL a (Arrange a os) false c1 ltac:(cbn [asize]; lia) Hs Ha Hp I E). exact H2.
   - (* slice_head *)
-    apply andb_prop in Hs as [Hs Hk]. apply andb_prop in Hs as [Hs Hn]. apply andb_prop in Ha as [Ha _].
+    cbn [shape_ok] in Hs. cbn [flat_ok].
+    apply andb_prop in Hs as [Hs Hk]. apply andb_prop in Hs as [Hs Hn].
     rewrite (IH Hs Ha), Hk. apply Z.ltb_lt in Hn. replace (Z.leb 0 n) with true; [reflexivity|].
     symmetry. apply Z.leb_le. lia.
-  - apply andb_prop in Hs as [Hs H1]. apply andb_prop in Ha as [Ha _]. rewrite (IH Hs Ha). exact H1.
-  - apply andb_prop in Ha as [Ha _]. exact (IH Hs Ha).
+  - cbn [shape_ok] in Hs. cbn [flat_ok]. apply andb_prop in Hs as [Hs H1]. rewrite (IH Hs Ha). exact H1.
+  - cbn [shape_ok] in Hs. cbn [flat_ok]. exact (IH Hs Ha).
   - (* summarize *)
-    apply andb_prop in Hs as [Hs H2]. apply andb_prop in Hs as [Hs H1]. apply andb_prop in Ha as [Ha Hp].
-    rewrite (IH Hs Ha), H1. cbn.
+    cbn [shape_ok] in Hs. cbn [flat_ok].
+    apply andb_prop in Hs as [Hs H2]. apply andb_prop in Hs as [Hs H1]. rewrite (IH Hs Ha), H1. cbn.
     destruct (compile a) as [c1|] eqn:E; [|discriminate].
-    apply (passes_after_slice sch a (Summarize a defs)) in Hp as (cc & Hc & Hl); [|exact I].
-    cbn zeta in H2 |- *. unfold no_limit. rewrite (limit_link sch a cc c1 Hs Hc E Hl). exact H2.
-  - destruct m; [discriminate|]. apply andb_prop in Ha as [Ha _]. exact (IH Hs Ha).
+    cbn zeta in H2 |- *. rewrite (NL a (Summarize a defs) false c1 ltac:(cbn [asize]; lia) Hs Ha Hp I E). exact H2.
+  - (* alias *)
+    destruct m as [m|]; cbn [shape_ok] in Hs; cbn [flat_ok].
+    + apply andb_prop in Hs as [Hs H1]. rewrite (IH Hs Ha). exact H1.
+    + exact (IH Hs Ha).
+  - (* subquery marker *)
+    destruct (alias_some_dec a) as [[c0 [m ->]]|Hna].
+    + rewrite shape_ok_marker_alias in Hs. rewrite flat_ok_marker_alias.
+      apply andb_prop in Hs as [Hs H1]. cbn [accepted] in Ha. apply andb_prop in Ha as [Ha _].
+      rewrite (IH0 c0 ltac:(cbn [asize]; lia) Hs Ha). exact H1.
+    + rewrite (shape_ok_marker_generic a Hna) in Hs. rewrite (flat_ok_marker_generic a Hna). exact (IH Hs Ha).
+  - (* joins: both operands carry no LIMIT *)
+    cbn [accepted] in Ha. split_andb.
+    assert (Hsl : shape_ok l = true /\ shape_ok r = true).
+    { destruct how; cbn [shape_ok] in Hs; split_andb; split; assumption. }
+    destruct Hsl as [Hsl Hsr].
+    pose proof (IH0 l ltac:(cbn [asize]; lia) Hsl ltac:(assumption)) as Fl.
+    pose proof (IH0 r ltac:(cbn [asize]; lia) Hsr ltac:(assumption)) as Fr.
+    destruct how; cbn [shape_ok] in Hs; cbn [flat_ok]; rewrite Fl, Fr;
+      destruct (compile l) as [cl|] eqn:El; try (split_andb; discriminate);
+      destruct (compile r) as [cr|] eqn:Er; try (split_andb; discriminate);
+      pose proof (NL l _ false cl ltac:(cbn [asize]; lia) Hsl ltac:(assumption) ltac:(eassumption) I El) as NLl;
+      pose proof (NL r _ true cr ltac:(cbn [asize]; lia) Hsr ltac:(assumption) ltac:(eassumption) I Er) as NLr;
+      cbv zeta in Hs |- *; split_andb; rewrite NLl, NLr; cbn [andb]; rebuild_andb.
+  - (* union *)
+    cbn [accepted] in Ha. split_andb. cbn [shape_ok] in Hs. cbn [flat_ok]. split_andb.
+    rewrite (IH0 l ltac:(cbn [asize]; lia)) by assumption. rewrite (IH0 r ltac:(cbn [asize]; lia)) by assumption.
+    cbn [andb]. assumption.
 Qed.
 
 Theorem accepted_compile_correct_proof sch d a c :
